@@ -325,7 +325,7 @@ func TestSub_partition(t *testing.T) {
 // reject: unknown molecule types, every single letter outside the type's alphabet at every
 // position of short valid strings, double-stranded proteins.
 func TestSub_reject(t *testing.T) {
-	space := "11 unknown type strings x 9 sequences (the empty one, one letter, lower case, long, letters of no alphabet among them) x 4 flag pairs; every byte 0x00..0x7f that is not white space and 5 non-ASCII runes outside the alphabet inserted at every position of 3 short valid strings per type x 4 flag pairs; double-stranded proteins over all protein strings of length 0..2"
+	space := "11 unknown type strings x 9 sequences (the empty one, one letter, lower case, long, letters of no alphabet among them) x 4 flag pairs; every byte 0x00..0x7f that is not white space and 5 non-ASCII runes outside the alphabet inserted at every position of 3 short valid strings and of 2 strings holding the whole alphabet per type x 4 flag pairs; double-stranded proteins over all protein strings of length 0..2"
 	vk.RunEnum(t, subReject, space, true, func(yield func(Case) bool) {
 		for _, typ := range []string{"", "XNA", "TNA", "LIPID", "GLYCAN", "42", "?", "unknown", "DNA+PROTEIN", "\x00", "nucleic acid or protein"} {
 			// whatever the sequence: a usual one, the empty one, one letter, lower case, a long one, letters of no alphabet
@@ -349,6 +349,10 @@ func TestSub_reject(t *testing.T) {
 			if typ == "PROTEIN" {
 				alphabet, bases = proteinAlphabet, []string{"", "M", "MKV*"}
 			}
+			// ... and of two hosts that hold every letter of the alphabet (how many distinct letters precede or follow
+			// the intruder is no reason to let it pass): the alphabet itself, and its lower-case mirror image twice
+			mirrored := strings.ToLower(ref.Reverse(alphabet))
+			bases = append(bases, alphabet, mirrored+mirrored)
 			for _, in := range intruders {
 				if strings.Contains(alphabet, strings.ToUpper(in)) {
 					continue
